@@ -114,6 +114,8 @@ def gen_pairs(rng, n):
 
 
 def rel_close(a, b, rel=1e-9, abs_tol=1e-12):
+    if isinstance(a, float) and isinstance(b, float) and (math.isinf(a) or math.isinf(b) or math.isnan(a) or math.isnan(b)):
+        return (math.isnan(a) and math.isnan(b)) or a == b   # a levelized cost over zero energy: infinite in both runs
     if isinstance(a, float) and isinstance(b, float) and (math.isnan(a) and math.isnan(b)):
         return True
     return abs(a - b) <= rel * max(abs(a), abs(b)) + abs_tol
